@@ -77,6 +77,13 @@ def presentations(rng, case):
     names = core.names_for(n)
     out.append(("reference", dict(case, names=names)))
     out.append(("keys-0-based", dict(case, names=names, base=[[i, b, a] for i, (_, b, a) in enumerate(base)])))
+    if case.get("weakly") and len(base) >= 1:
+        # key 0 on a conditional of the infinity layer (a falsy key where the code may test "is there anything in this layer")
+        part = core.py_partition([(b, a) for _, b, a in base], core.all_worlds(n), weakly=True)
+        if part and part[-1]:
+            z = rng.choice(part[-1])
+            ks = [0 if i == z else (i + 1) for i in range(len(base))]
+            out.append(("key-0-in-infinity-layer", dict(case, names=names, base=[[k, b, a] for k, (_, b, a) in zip(ks, base)])))
     sk = sorted(rng.sample(range(0, 60), len(base)))
     out.append(("keys-sparse", dict(case, names=names, base=[[k, b, a] for k, (_, b, a) in zip(sk, base)])))
     pk = list(range(1, len(base) + 1))
